@@ -77,6 +77,23 @@ Section TcpAuthentic.
   Qed.
 End TcpAuthentic.
 
+Lemma c04_inc_le_len : forall l, length (inc_le l) = length l.
+Proof. induction l as [|b t IH]; cbn [inc_le length]; [reflexivity|]. destruct (b + 1 <? 256); cbn [length]; [reflexivity|rewrite IH; reflexivity]. Qed.
+Lemma c04_nonce_add_len : forall k n, length (nonce_add k n) = length n.
+Proof.
+  induction k as [|k IH]; intros n; cbn [nonce_add]; [reflexivity|]. rewrite IH. unfold nonce_inc.
+  rewrite rev_length, c04_inc_le_len, rev_length. reflexivity.
+Qed.
+
+Lemma c04_firstn_in {A} : forall n (l : list A) x, In x (firstn n l) -> In x l.
+Proof. induction n as [|n IH]; intros [|y l] x H; cbn [firstn] in H; try contradiction. destruct H as [H|H]; [left; exact H|right; apply (IH _ _ H)]. Qed.
+
+Lemma session_in_other : forall client sid l, Forall (fun r : rseg => mi_sid (fst r) <> sid) l -> session_in client sid l = [].
+Proof.
+  intros client sid l H. induction H as [|r t Hr _ IH]; cbn [session_in]; [reflexivity|].
+  destruct (mi_sid (fst r) =? sid) eqn:E; [apply N.eqb_eq in E; contradiction|exact IH].
+Qed.
+
 (* ------------------------------------------------------------------ TCP: prefix *)
 Section TcpPrefix.
   Variable open : list N -> list N -> option (list N).
@@ -203,6 +220,41 @@ Section TcpPrefix.
     destruct (drain_aligned (length (n0 ++ rest)) ([] ++ [s0]) l' r Hsegs') as [m Hm].
     destruct (drain (length (n0 ++ rest)) (Some (nonce_add (length (sboxes ([] ++ [s0]))) n0)) r) as [l2 st2].
     cbn [fst] in *. exists (S m). rewrite Hl. cbn [firstn map]. rewrite Hm. reflexivity.
+  Qed.
+
+  (* the receiver started on the sender's nonce advanced to a SEGMENT BOUNDARY (nonce header rewritten, leading
+     segments removed; or a whole stream of this sender fed to another receiver): a contiguous run of the sender's
+     segments from that boundary is delivered *)
+  Theorem tcp_infix_from_boundary : length n0 = nonceLen -> forall pre l rest, segs = pre ++ l ->
+    exists m, fst (feed r_init (nonce_add (length (sboxes pre)) n0 ++ rest)) = map deliver (firstn m l).
+  Proof.
+    intros Hn pre l rest Hsegs. unfold TcpStream.feed. cbn [r_failed r_init r_buf r_next app].
+    cbn [TcpStream.drain].
+    assert (Hk : length (nonce_add (length (sboxes pre)) n0) = nonceLen) by (rewrite c04_nonce_add_len; exact Hn).
+    rewrite (parse1_header _ _ _ _ _ Hk).
+    destruct (parse1 (Some (nonce_add (length (sboxes pre)) n0)) rest) as [| |s n' r] eqn:E;
+      try (exists 0%nat; reflexivity).
+    destruct (parse1_aligned pre l _ _ _ _ Hsegs E) as [s0 [l' [Hl [Hs Hn']]]]. subst s n' l.
+    assert (Hsegs' : segs = (pre ++ [s0]) ++ l') by (rewrite <- app_assoc; exact Hsegs).
+    destruct (drain_aligned (length (nonce_add (length (sboxes pre)) n0 ++ rest)) (pre ++ [s0]) l' r Hsegs') as [m Hm].
+    destruct (drain (length (nonce_add (length (sboxes pre)) n0 ++ rest)) (Some (nonce_add (length (sboxes (pre ++ [s0]))) n0)) r)
+      as [l2 st2].
+    cbn [fst] in *. exists (S m). cbn [firstn map]. rewrite Hm. reflexivity.
+  Qed.
+
+  (* cross-connection splice: this sender's stream (whole, or from any segment boundary, followed by anything) fed to a
+     receiver whose session id is not among this sender's session ids hands nothing to that session *)
+  Theorem tcp_cross_connection_splice_refused : length n0 = nonceLen -> forall client sidB,
+    Forall (fun s => mi_sid (s_meta s) <> sidB) segs ->
+    forall pre l rest, segs = pre ++ l ->
+      session_in client sidB (fst (feed r_init (nonce_add (length (sboxes pre)) n0 ++ rest))) = [].
+  Proof.
+    intros Hn client sidB Hd pre l rest Hsegs.
+    destruct (tcp_infix_from_boundary Hn pre l rest Hsegs) as [m Hm]. rewrite Hm.
+    apply session_in_other. rewrite Forall_forall. intros r Hr.
+    apply in_map_iff in Hr. destruct Hr as [s [Hs Hin]]. subst r.
+    rewrite Forall_forall in Hd. apply (Hd s). rewrite Hsegs. apply in_or_app. right.
+    exact (c04_firstn_in _ _ _ Hin).
   Qed.
 
 End TcpPrefix.
@@ -643,7 +695,7 @@ Section UdpRelease.
   Variable sent : list (list N).     (* payload of the sequenced segment number i of the sender *)
   Definition gen (kp : nat * list N) : Prop := nth_error sent (fst kp) = Some (snd kp).
   Definition genuine (e : uevent) : Prop :=
-    match e with UArrive q p => nth_error sent q = Some p | UClose => True end.
+    match e with UArrive q p => nth_error sent q = Some p | UClose => True | UAck => True end.
 
   Lemma buf_lookup_in : forall b q p, buf_lookup q b = Some p -> In (q, p) b.
   Proof.
@@ -679,7 +731,7 @@ Section UdpRelease.
   Lemma u_step_inv : forall st e, u_inv st -> genuine e -> u_inv (u_step st e).
   Proof.
     intros st e [Hq Hb] He. unfold u_step. destruct (u_closed st); [split; assumption|].
-    destruct e as [q p|]; [|split; assumption].
+    destruct e as [q p| |]; [|split; assumption|split; assumption].
     destruct (q <? u_next st)%nat; [split; assumption|].
     destruct (u_release (S (length ((q, p) :: buf_remove q (u_buf st)))) (u_next st) ((q, p) :: buf_remove q (u_buf st)))
       as [[n1 b1] r1] eqn:Er.
@@ -727,3 +779,232 @@ Proof.
   split; [vm_compute; reflexivity|]. split; [reflexivity|]. split; [reflexivity|].
   vm_compute. discriminate.
 Qed.
+
+(* ------------------------------------------------------------------ UDP: a replayed copy of ANY authentic datagram is a no-op *)
+Definition beq (b1 b2 : list (nat * list N)) : Prop := forall k, buf_lookup k b1 = buf_lookup k b2.
+Definition steq (s1 s2 : ust) : Prop :=
+  u_next s1 = u_next s2 /\ u_q s1 = u_q s2 /\ u_closed s1 = u_closed s2 /\ beq (u_buf s1) (u_buf s2).
+
+Lemma lookup_remove : forall b q k, buf_lookup k (buf_remove q b) = if (k =? q)%nat then None else buf_lookup k b.
+Proof.
+  induction b as [|[j p] t IH]; intros q k; cbn [buf_remove buf_lookup].
+  - destruct (k =? q)%nat; reflexivity.
+  - destruct (j =? q)%nat eqn:Ejq.
+    + rewrite IH. apply Nat.eqb_eq in Ejq. subst j. destruct (k =? q)%nat eqn:Ekq; [reflexivity|].
+      rewrite Nat.eqb_sym, Ekq. reflexivity.
+    + cbn [buf_lookup]. rewrite IH. destruct (j =? k)%nat eqn:Ejk; [|reflexivity].
+      apply Nat.eqb_eq in Ejk. subst k. rewrite Ejq. reflexivity.
+Qed.
+
+Lemma remove_len : forall b q, (length (buf_remove q b) <= length b)%nat.
+Proof. induction b as [|[j p] t IH]; intros q; cbn [buf_remove length]; [lia|]. destruct (j =? q)%nat; cbn [length]; specialize (IH q); lia. Qed.
+
+Lemma remove_len_lt : forall b q p, buf_lookup q b = Some p -> (length (buf_remove q b) < length b)%nat.
+Proof.
+  induction b as [|[j x] t IH]; intros q p H; cbn [buf_lookup] in H; [discriminate|].
+  cbn [buf_remove length]. destruct (j =? q)%nat.
+  - pose proof (remove_len t q). lia.
+  - cbn [length]. specialize (IH _ _ H). lia.
+Qed.
+
+Lemma remove_beq : forall b1 b2 q, beq b1 b2 -> beq (buf_remove q b1) (buf_remove q b2).
+Proof. intros b1 b2 q H k. rewrite !lookup_remove, (H k). reflexivity. Qed.
+
+(* a release with enough fuel stops at a missing sequence number, only moves forward, and removes exactly the
+   released keys *)
+Lemma release_spec : forall fuel next b n' b' r, (length b < fuel)%nat -> u_release fuel next b = (n', b', r) ->
+  buf_lookup n' b' = None /\ (next <= n')%nat /\
+  (forall k, buf_lookup k b' = if (next <=? k)%nat && (k <? n')%nat then None else buf_lookup k b).
+Proof.
+  induction fuel as [|f IH]; intros next b n' b' r Hl H; [lia|].
+  cbn [u_release] in H. destruct (buf_lookup next b) as [p|] eqn:El.
+  - destruct (u_release f (S next) (buf_remove next b)) as [[n1 b1] r1] eqn:Er. inversion H; subst; clear H.
+    pose proof (remove_len_lt _ _ _ El) as Hlt.
+    assert (Hf : (length (buf_remove next b) < f)%nat) by lia.
+    destruct (IH _ _ _ _ _ Hf Er) as [H1 [H2 H3]].
+    split; [exact H1|]. split; [lia|]. intros k. rewrite H3, lookup_remove.
+    destruct (k =? next)%nat eqn:Ek.
+    + apply Nat.eqb_eq in Ek. subst k.
+      replace (next <=? next)%nat with true by (symmetry; apply Nat.leb_le; lia).
+      replace (next <? n')%nat with true by (symmetry; apply Nat.ltb_lt; lia).
+      destruct (S next <=? next)%nat; reflexivity.
+    + apply Nat.eqb_neq in Ek.
+      destruct (S next <=? k)%nat eqn:E1; destruct (next <=? k)%nat eqn:E2; try reflexivity.
+      * apply Nat.leb_le in E1. apply Nat.leb_gt in E2. lia.
+      * apply Nat.leb_gt in E1. apply Nat.leb_le in E2. lia.
+  - inversion H; subst; clear H. split; [exact El|]. split; [lia|]. intros k.
+    destruct (n' <=? k)%nat eqn:E1; destruct (k <? n')%nat eqn:E2; try reflexivity.
+    apply Nat.leb_le in E1. apply Nat.ltb_lt in E2. lia.
+Qed.
+
+Lemma release_beq : forall f1 f2 next b1 b2, beq b1 b2 -> (length b1 < f1)%nat -> (length b2 < f2)%nat ->
+  fst (fst (u_release f1 next b1)) = fst (fst (u_release f2 next b2)) /\
+  snd (u_release f1 next b1) = snd (u_release f2 next b2) /\
+  beq (snd (fst (u_release f1 next b1))) (snd (fst (u_release f2 next b2))).
+Proof.
+  induction f1 as [|f1 IH]; intros f2 next b1 b2 Hb H1 H2; [lia|]. destruct f2 as [|f2]; [lia|].
+  cbn [u_release]. rewrite <- (Hb next). destruct (buf_lookup next b1) as [p|] eqn:El.
+  - assert (El2 : buf_lookup next b2 = Some p) by (rewrite <- (Hb next); exact El).
+    pose proof (remove_len_lt _ _ _ El). pose proof (remove_len_lt _ _ _ El2).
+    destruct (IH f2 (S next) (buf_remove next b1) (buf_remove next b2) (remove_beq _ _ next Hb) ltac:(lia) ltac:(lia))
+      as [A [B C]].
+    destruct (u_release f1 (S next) (buf_remove next b1)) as [[n1 c1] r1].
+    destruct (u_release f2 (S next) (buf_remove next b2)) as [[n2 c2] r2].
+    cbn [fst snd] in *. subst. repeat split; assumption.
+  - cbn [fst snd]. repeat split; assumption.
+Qed.
+
+Lemma steq_refl : forall s, steq s s.
+Proof. intros s. repeat split. Qed.
+
+Lemma step_steq : forall s1 s2 e, steq s1 s2 -> steq (u_step s1 e) (u_step s2 e).
+Proof.
+  intros s1 s2 e H0. pose proof H0 as [Hn [Hq [Hc Hb]]]. unfold u_step. rewrite <- Hc.
+  destruct (u_closed s1) eqn:Ec; [exact H0|].
+  destruct e as [q p| |]; [| |exact H0].
+  - rewrite <- Hn. destruct (q <? u_next s1)%nat; [exact H0|].
+    assert (Hb' : beq ((q, p) :: buf_remove q (u_buf s1)) ((q, p) :: buf_remove q (u_buf s2))).
+    { intros k. cbn [buf_lookup]. destruct (q =? k)%nat; [reflexivity|]. apply remove_beq, Hb. }
+    assert (L1 : (length ((q, p) :: buf_remove q (u_buf s1)) < S (length ((q, p) :: buf_remove q (u_buf s1))))%nat) by lia.
+    assert (L2 : (length ((q, p) :: buf_remove q (u_buf s2)) < S (length ((q, p) :: buf_remove q (u_buf s2))))%nat) by lia.
+    destruct (release_beq _ _ (u_next s1) _ _ Hb' L1 L2) as [A [B C]].
+    destruct (u_release (S (length ((q, p) :: buf_remove q (u_buf s1)))) (u_next s1) ((q, p) :: buf_remove q (u_buf s1)))
+      as [[n1 c1] r1].
+    destruct (u_release (S (length ((q, p) :: buf_remove q (u_buf s2)))) (u_next s1) ((q, p) :: buf_remove q (u_buf s2)))
+      as [[n2 c2] r2].
+    cbn [fst snd] in A, B, C. subst n2 r2.
+    split; [reflexivity|]. split; [cbn [u_q]; rewrite Hq; reflexivity|]. split; [reflexivity|exact C].
+  - split; [exact Hn|]. split; [exact Hq|]. split; [reflexivity|exact Hb].
+Qed.
+
+Section UdpReplay.
+  Variable sent : list (list N).
+  Notation genuine := (genuine sent).
+
+  (* every reachable state has stopped at a missing sequence number *)
+  Definition stable (st : ust) : Prop := buf_lookup (u_next st) (u_buf st) = None.
+  (* the event has been handed to the session before *)
+  Definition seen (e : uevent) (st : ust) : Prop :=
+    match e with
+    | UArrive q p => u_closed st = true \/ (q < u_next st)%nat \/ buf_lookup q (u_buf st) = Some p
+    | UClose => u_closed st = true
+    | UAck => True
+    end.
+
+  Lemma step_arrive : forall st q p, u_closed st = false -> (q <? u_next st)%nat = false ->
+    exists n' b' r, u_step st (UArrive q p) = mkU n' b' (u_q st ++ r) false /\
+      buf_lookup n' b' = None /\ (u_next st <= n')%nat /\
+      (forall k, buf_lookup k b' = if (u_next st <=? k)%nat && (k <? n')%nat then None
+                                   else if (q =? k)%nat then Some p else buf_lookup k (u_buf st)).
+  Proof.
+    intros st q p Hc Hq. unfold u_step. rewrite Hc, Hq.
+    destruct (u_release (S (length ((q, p) :: buf_remove q (u_buf st)))) (u_next st) ((q, p) :: buf_remove q (u_buf st)))
+      as [[n' b'] r] eqn:Er.
+    assert (Hf : (length ((q, p) :: buf_remove q (u_buf st)) < S (length ((q, p) :: buf_remove q (u_buf st))))%nat) by lia.
+    destruct (release_spec _ _ _ _ _ _ Hf Er) as [H1 [H2 H3]].
+    exists n', b', r. split; [reflexivity|]. split; [exact H1|]. split; [exact H2|].
+    intros k. rewrite H3. destruct ((u_next st <=? k)%nat && (k <? n')%nat); [reflexivity|].
+    cbn [buf_lookup]. destruct (q =? k)%nat eqn:E; [reflexivity|]. rewrite lookup_remove.
+    rewrite Nat.eqb_sym, E. reflexivity.
+  Qed.
+
+  Lemma stable_step : forall st e, stable st -> stable (u_step st e).
+  Proof.
+    intros st e Hs. destruct (u_closed st) eqn:Hc; [unfold u_step; rewrite Hc; exact Hs|].
+    destruct e as [q p| |].
+    - destruct (q <? u_next st)%nat eqn:Hq; [unfold u_step; rewrite Hc, Hq; exact Hs|].
+      destruct (step_arrive st q p Hc Hq) as [n' [b' [r [E [H1 _]]]]]. rewrite E. exact H1.
+    - unfold u_step. rewrite Hc. exact Hs.
+    - unfold u_step. rewrite Hc. exact Hs.
+  Qed.
+
+  Lemma seen_after : forall st e, seen e (u_step st e).
+  Proof.
+    intros st e. destruct (u_closed st) eqn:Hc.
+    - unfold u_step. rewrite Hc. destruct e; cbn [seen]; auto.
+    - destruct e as [q p| |]; cbn [seen]; [|unfold u_step; rewrite Hc; reflexivity|exact I].
+      destruct (q <? u_next st)%nat eqn:Hq.
+      + unfold u_step. rewrite Hc, Hq. right. left. apply Nat.ltb_lt, Hq.
+      + destruct (step_arrive st q p Hc Hq) as [n' [b' [r [E [_ [H2 H3]]]]]]. rewrite E. cbn [u_closed u_next u_buf].
+        right. apply Nat.ltb_ge in Hq. destruct (q <? n')%nat eqn:Eq; [left; apply Nat.ltb_lt, Eq|].
+        right. rewrite H3, Eq, andb_false_r, Nat.eqb_refl. reflexivity.
+  Qed.
+
+  Lemma seen_step : forall st e e', genuine e -> genuine e' -> seen e st -> seen e (u_step st e').
+  Proof.
+    intros st e e' Ge Ge' Hs. destruct (u_closed st) eqn:Hc; [unfold u_step; rewrite Hc; exact Hs|].
+    destruct e as [q p| |]; cbn [seen] in *; [|rewrite Hc in Hs; discriminate|exact I].
+    destruct Hs as [Hs|Hs]; [rewrite Hc in Hs; discriminate|].
+    destruct e' as [q' p'| |]; [|left; unfold u_step; rewrite Hc; reflexivity|right; unfold u_step; rewrite Hc; exact Hs].
+    destruct (q' <? u_next st)%nat eqn:Hq; [right; unfold u_step; rewrite Hc, Hq; exact Hs|].
+    destruct (step_arrive st q' p' Hc Hq) as [n' [b' [r [E [_ [H2 H3]]]]]]. rewrite E. cbn [u_closed u_next u_buf].
+    right. destruct Hs as [Hs|Hs]; [left; lia|].
+    destruct (q <? n')%nat eqn:Eq; [left; apply Nat.ltb_lt, Eq|]. right.
+    rewrite H3, Eq, andb_false_r. destruct (q' =? q)%nat eqn:Eqq; [|exact Hs].
+    apply Nat.eqb_eq in Eqq. subst q'. cbn in Ge, Ge'. rewrite Ge in Ge'. exact (eq_sym Ge').
+  Qed.
+
+  (* handing an already seen event to a stable session changes nothing (up to the order inside recvBuf) *)
+  Lemma redeliver_noop : forall st e, stable st -> seen e st -> steq (u_step st e) st.
+  Proof.
+    intros st e Hst Hs. destruct (u_closed st) eqn:Hc; [unfold u_step; rewrite Hc; apply steq_refl|].
+    destruct e as [q p| |]; cbn [seen] in Hs.
+    - destruct Hs as [Hs|[Hs|Hs]]; [rewrite Hc in Hs; discriminate| |].
+      + unfold u_step. rewrite Hc. replace (q <? u_next st)%nat with true by (symmetry; apply Nat.ltb_lt, Hs). apply steq_refl.
+      + destruct (q <? u_next st)%nat eqn:Hq; [unfold u_step; rewrite Hc, Hq; apply steq_refl|].
+        unfold u_step. rewrite Hc, Hq.
+        assert (Hb : beq ((q, p) :: buf_remove q (u_buf st)) (u_buf st)).
+        { intros k. cbn [buf_lookup]. destruct (q =? k)%nat eqn:E.
+          - apply Nat.eqb_eq in E. subst k. symmetry. exact Hs.
+          - rewrite lookup_remove, Nat.eqb_sym, E. reflexivity. }
+        assert (L1 : (length ((q, p) :: buf_remove q (u_buf st)) < S (length ((q, p) :: buf_remove q (u_buf st))))%nat) by lia.
+        assert (L2 : (length (u_buf st) < S (length (u_buf st)))%nat) by lia.
+        destruct (release_beq _ _ (u_next st) _ _ Hb L1 L2) as [A [B C]].
+        assert (Hr : u_release (S (length (u_buf st))) (u_next st) (u_buf st) = (u_next st, u_buf st, [])).
+        { unfold stable in Hst. cbn [u_release]. rewrite Hst. reflexivity. }
+        rewrite Hr in A, B, C.
+        destruct (u_release (S (length ((q, p) :: buf_remove q (u_buf st)))) (u_next st) ((q, p) :: buf_remove q (u_buf st)))
+          as [[n1 c1] r1].
+        cbn [fst snd] in A, B, C. subst n1 r1.
+        split; [reflexivity|]. split; [cbn [u_q]; apply app_nil_r|]. split; [cbn [u_closed]; symmetry; exact Hc|exact C].
+    - rewrite Hc in Hs. discriminate.
+    - unfold u_step. rewrite Hc. apply steq_refl.
+  Qed.
+
+  Lemma fold_stable : forall evs st, stable st -> stable (fold_left u_step evs st).
+  Proof. induction evs as [|e t IH]; intros st H; cbn [fold_left]; [exact H|]. apply IH, stable_step, H. Qed.
+  Lemma fold_seen : forall evs st e, genuine e -> Forall genuine evs -> seen e st -> seen e (fold_left u_step evs st).
+  Proof.
+    induction evs as [|e' t IH]; intros st e Ge H Hs; cbn [fold_left]; [exact Hs|].
+    inversion H; subst. apply IH; [assumption|assumption|]. apply seen_step; assumption.
+  Qed.
+  Lemma fold_steq : forall evs s1 s2, steq s1 s2 -> steq (fold_left u_step evs s1) (fold_left u_step evs s2).
+  Proof. induction evs as [|e t IH]; intros s1 s2 H; cbn [fold_left]; [exact H|]. apply IH, step_steq, H. Qed.
+
+  (* a second copy of ANY authentic datagram - data, open request / response (they carry a sequence number and go through
+     recvBuf too), close request / response, ack - inserted at ANY later point: the same nextRecv, the same bytes for
+     the application, the same open / closed state as without the copy *)
+  Theorem udp_replayed_copy_is_idempotent : forall evs1 e evs2 evs3,
+    Forall genuine (evs1 ++ e :: evs2 ++ evs3) ->
+    let a := u_run (evs1 ++ e :: evs2 ++ e :: evs3) in
+    let b := u_run (evs1 ++ e :: evs2 ++ evs3) in
+    u_next a = u_next b /\ u_q a = u_q b /\ u_closed a = u_closed b.
+  Proof.
+    intros evs1 e evs2 evs3 H. cbv zeta. unfold u_run.
+    apply Forall_app in H. destruct H as [H1 H]. inversion H as [|x y Ge H']; subst.
+    apply Forall_app in H'. destruct H' as [H2 H3].
+    rewrite !fold_left_app. cbn [fold_left]. rewrite !fold_left_app. cbn [fold_left].
+    set (s0 := fold_left u_step evs1 u_init).
+    set (s1 := fold_left u_step evs2 (u_step s0 e)).
+    assert (St : stable s1).
+    { apply fold_stable, stable_step, fold_stable. reflexivity. }
+    assert (Se : seen e s1) by (apply fold_seen; [assumption|assumption|apply seen_after]).
+    pose proof (fold_steq evs3 _ _ (redeliver_noop s1 e St Se)) as [A [B [C _]]].
+    repeat split; assumption.
+  Qed.
+End UdpReplay.
+
+(* the copy of the open response (sequence number 0) after two data segments: nothing changes *)
+Lemma ex_replay : u_next (u_run [UArrive 0 []; UArrive 1 [5]; UArrive 2 [6]; UArrive 0 []; UArrive 3 [7]]) = 4%nat
+  /\ u_q (u_run [UArrive 0 []; UArrive 1 [5]; UArrive 2 [6]; UArrive 0 []; UArrive 3 [7]]) = [[]; [5]; [6]; [7]].
+Proof. vm_compute. split; reflexivity. Qed.
